@@ -108,6 +108,11 @@ def synthetic_zones():
     # pre-2018 "big bang" entry whose type equals the default type
     z = T.make_rule_zone(b'EST5EDT,M3.2.0,M11.1.0', version=2, bigbang=0)
     out.append(Zone('syn/bigbang', T.write(z), 'synthetic'))
+    # big-bang entry whose type is NOT the type the file designates for earlier times
+    d = C.day_num
+    z = T.TZif(2, [-2**59, d(1883, 11, 18) * 86400 + 17762, d(1990, 4, 1) * 86400, d(1990, 10, 28) * 86400], [1, 0, 2, 0],
+               [(-18000, False, 4), (-17762, False, 0), (-14400, True, 8)], b'LMT\0EST\0EDT\0', b'EST5')
+    out.append(Zone('syn/bigbang-other-type', T.write(z), 'synthetic'))
     # only type, no transitions
     z = T.TZif(2, [], [], [(3600, False, 0)], b'CET\0', b'CET-1')
     out.append(Zone('syn/notrans', T.write(z), 'synthetic'))
